@@ -17,7 +17,7 @@ ASSUMPTIONS = ["inputs are float64 C-contiguous (the criterion constructors refu
                "linear criterion checked for unit weights and ranges with more rows than coefficients, as stated",
                "criteria are driven through the _test_criterion_* accessors exported by the compiled module"]
 
-CRITS = ("simple", "fast", "linear1", "linear2")
+CRITS = ("simple", "fast", "linear1", "linear2", "linear3")
 
 
 def bounds(tier):
@@ -58,7 +58,7 @@ def cases(tier, seed):
             yield {"kind": "hist", "crit": crit, "n": n, "y": list(v)}
     # estimator
     ne = b["n_est"]
-    for design in ("line", "plane", "dup"):
+    for design in ("line", "plane", "dup", "offset"):
         for n in range(3, ne + 1):
             ys = list(itertools.product((0, 1, 3), repeat=n))
             for i in range(0, len(ys), 81):
@@ -71,6 +71,9 @@ def _design(name, n):
         return numpy.arange(n, dtype=numpy.float64).reshape(-1, 1)
     if name == "plane":
         return numpy.array([[i, (i * i * 3 + i) % 7] for i in range(n)], dtype=numpy.float64)
+    if name == "offset":
+        # valid but badly scaled: a large offset relative to the spread (condition number of [X, 1] about 1e9)
+        return 20000.0 + 0.5 * numpy.arange(n, dtype=numpy.float64).reshape(-1, 1)
     # duplicates in x: rank-deficient leaves
     return numpy.array([[i // 2] for i in range(n)], dtype=numpy.float64)
 
@@ -84,7 +87,7 @@ def _mk(crit, n):
         from mlinsights.mlmodel.piecewise_tree_regression_criterion_fast import SimpleRegressorCriterionFast
         return SimpleRegressorCriterionFast(1, n), None
     from mlinsights.mlmodel.piecewise_tree_regression_criterion_linear import LinearRegressorCriterion
-    X = _design("line" if crit == "linear1" else "plane", n)
+    X = _design({"linear1": "line", "linear2": "plane", "linear3": "offset"}[crit], n)
     return LinearRegressorCriterion(1, X), X
 
 
@@ -108,7 +111,7 @@ def _ref(y, w, X, idx):
 
 def _check_state(C, crit_obj, cname, y, w, X, samples, start, pos, end, Wtot, bad, desc, with_proxy=True):
     import numpy
-    TOL = 1e-9
+    TOL = 1e-9 if (X is None or abs(X).max() < 1000) else 1e-5
     node = samples[start:end]
     left = samples[start:pos]
     right = samples[pos:end]
@@ -244,6 +247,8 @@ def _est(case):
     X = _design(case["design"], n)
     d = X.shape[1]
     probes = numpy.vstack([X, X + 0.25, X[:1] - 1.0, X[-1:] + 1.5])
+    if case["design"] == "offset":
+        probes = numpy.vstack([X, X + 0.125])
     viol = []
     sigs = set()
     cnt = 0
@@ -304,7 +309,7 @@ def _est(case):
                                 # unique only on training rows, or everywhere if full column rank
                                 chk = (q < n) if rank < A.shape[1] else numpy.ones(len(q), dtype=bool)
                             diff = numpy.abs(pred[q] - exp)
-                            if (diff[chk] > 1e-8).any():
+                            if (diff[chk] > (1e-8 if case["design"] != "offset" else 1e-4)).any():
                                 k = q[chk][int(numpy.argmax(diff[chk]))]
                                 bad("prediction != per-leaf %s|criterion=%s" % (
                                     "least squares" if crit == "mselin" else "mean", crit),
